@@ -173,14 +173,14 @@ func Print(e *E) string {
 		return "{" + strings.Join(parts, ", ") + "}"
 	case "bin":
 		return wrap(e.A[0]) + " " + e.S + " " + wrap(e.A[1])
-	case "not", "length", "keys", "to_entries", "from_entries", "reverse", "unique", "any", "all":
+	case "not", "length", "keys", "to_entries", "from_entries", "reverse", "unique", "any", "all", "sort":
 		return e.Op
 	case "flatten":
 		if e.I != nil {
 			return fmt.Sprintf("flatten(%d)", *e.I)
 		}
 		return "flatten"
-	case "select", "map", "with_entries", "group_by", "any_c", "all_c", "contains":
+	case "select", "map", "with_entries", "group_by", "any_c", "all_c", "contains", "sort_by", "filter":
 		return e.Op + "(" + Print(e.A[0]) + ")"
 	case "has":
 		if e.I != nil {
@@ -290,6 +290,9 @@ func Eval(e *E, ctx []*V, env Env) ([]*V, error) {
 		v, ok := env[e.S]
 		if !ok {
 			return nil, unspec("unbound variable $%s", e.S)
+		}
+		if len(ctx) != 1 {
+			return nil, unspec("variable read in a context of several nodes")
 		}
 		n := len(ctx)
 		if n == 0 {
@@ -403,6 +406,74 @@ func Eval(e *E, ctx []*V, env Env) ([]*V, error) {
 				return nil, err
 			}
 			out = append(out, model.NewSeq(r...))
+		}
+		return out, nil
+	case "filter":
+		var out []*V
+		for _, c := range ctx {
+			if c.K != model.Seq {
+				return nil, unspec("filter on %v", c.K)
+			}
+			res := model.NewSeq()
+			for _, el := range c.Elem {
+				r, err := Eval(e.A[0], []*V{el}, env)
+				if err != nil {
+					return nil, err
+				}
+				for _, x := range r {
+					if Truthy(x) {
+						res.Elem = append(res.Elem, el)
+						break
+					}
+				}
+			}
+			out = append(out, res)
+		}
+		return out, nil
+	case "sort", "sort_by":
+		var out []*V
+		for _, c := range ctx {
+			if c.K != model.Seq {
+				return nil, unspec("%s on %v", e.Op, c.K)
+			}
+			type kv struct{ k, v *V }
+			var items []kv
+			for _, el := range c.Elem {
+				k := el
+				if e.Op == "sort_by" {
+					r, err := Eval(e.A[0], []*V{el}, env)
+					if err != nil {
+						return nil, err
+					}
+					if len(r) != 1 {
+						return nil, unspec("sort key is not a single value")
+					}
+					k = r[0]
+				}
+				items = append(items, kv{k, el})
+			}
+			// the documentation defines the order of same-type scalars only
+			for i := range items {
+				a, b := items[0].k, items[i].k
+				if !a.IsScalar() || !b.IsScalar() || !(a.K == b.K || (a.IsNumber() && b.IsNumber())) || a.K == model.Bool || a.K == model.Null {
+					return nil, unspec("sort keys of mixed or unordered types")
+				}
+				if b.K == model.Str && looksLikeDate(b.S) {
+					return nil, unspec("string that may be read as a date")
+				}
+			}
+			sort.SliceStable(items, func(i, j int) bool {
+				a, b := items[i].k, items[j].k
+				if a.IsNumber() {
+					return a.Rat().Cmp(b.Rat()) < 0
+				}
+				return a.S < b.S
+			})
+			res := model.NewSeq()
+			for _, it := range items {
+				res.Elem = append(res.Elem, it.v)
+			}
+			out = append(out, res)
 		}
 		return out, nil
 	case "with_entries":
